@@ -188,6 +188,8 @@ class Sim:
         self.poll_streak = 0
         self.time_jumps = 0
         self.parks = 0
+        self.inner_evals = {}
+        self.inner_failures = []
         self.pct_points = set()
         self.user_done = {"try_submit": 0, "show_status": 0}
         self.stuck = False
@@ -273,6 +275,11 @@ class Sim:
             elif k == "wait":
                 a.state = "blocked"
                 a.blocked_on = msg["child"]
+            elif k == "contract":
+                self.inner_evals[msg["name"]] = self.inner_evals.get(msg["name"], 0) + 1
+                if not msg.get("ok"):
+                    self.inner_failures.append((msg["name"], msg.get("detail"), a.host, self.steps))
+                    self.log("INNER_MONITOR_FAILED", msg["name"], msg.get("detail"), a.host)
             return
         if k == "hello":
             a.pid = msg["pid"]
@@ -1753,6 +1760,9 @@ class Sim:
             "cancel_sites": getattr(self, "cancel_sites", None),
             "time_jumps": self.time_jumps,
             "parks": self.parks,
+            "inner_evals": sum(self.inner_evals.values()),
+            "inner_failures": [list(map(str, f)) for f in self.inner_failures[:5]],
+            "inner_failure_count": len(self.inner_failures),
             "nshared": self.nshared,
             "sig": self.sig.hexdigest()[:16],
             "epochs": self.epoch + 1,
